@@ -331,7 +331,25 @@ func stateEvents(fset *token.FileSet, fn *ast.FuncDecl) []string {
 		}
 		return true
 	})
-	return out
+	// what matters is which fallible calls come before and after which field assignments, not the
+	// order of adjacent assignments among themselves: runs of writes are sorted and de-duplicated
+	var norm []string
+	for i := 0; i < len(out); {
+		if !strings.HasPrefix(out[i], "W ") {
+			norm = append(norm, out[i])
+			i++
+			continue
+		}
+		j := i
+		set := map[string]bool{}
+		for j < len(out) && strings.HasPrefix(out[j], "W ") {
+			set[out[j]] = true
+			j++
+		}
+		norm = append(norm, sortedSet(set)...)
+		i = j
+	}
+	return norm
 }
 
 // writesBeforeLastFallible: state writes that are followed by a fallible call other than the
